@@ -32,3 +32,5 @@ func verifSnapshotRef(*snapshot, int32, int32) {}
 func verifPartReleased(*partWrapper) {}
 
 func verifPartRemoving(*partWrapper) {}
+
+func verifPause(string) {}
